@@ -20,6 +20,7 @@ RULE = (
     "makes filtered arms that haar splits again; a third of the cases sit at 2.4e8 / beyond 2^31. Non-trivial = a "
     "filtered bin, or > 1 segment on a chromosome, or an arm split; distinct = distinct case JSON."
 )
+CLI_SHARE = 4  # one case in CLI_SHARE also goes through the command line (vk/cli.py)
 QUICK = {"examples": 960, "shards": 16, "budget_s": 500, "shrink": False}
 THOROUGH = {"examples": 4000, "shards": 16, "budget_s": 3000}
 ASSUMPTIONS = [
